@@ -108,7 +108,7 @@ def run(ctx):
                 for bs in (1, 2, 3, 5, 4096):
                     if not big and rng.random() < 0.5:
                         continue
-                    yield ("sockreader", {"S": S.hex(), "cuts": cuts, "bufsize": bs, "end": rng.choice(("close", "timeout", "reset"))})
+                    yield ("sockreader", {"S": S.hex(), "cuts": cuts, "bufsize": bs, "end": rng.choice(("close", "timeout", "reset")), "tls": len(cuts) % 2})
         # every very long frame / text line (tens of kilobytes, lines without LF for thousands of bytes) between two ordinary frames
         small = [x for x in pool if len(x[0]) < 60][:8]
         for k, x in enumerate(y for y in st.special_frames(rng) if len(y[0]) > 1000):
@@ -116,6 +116,11 @@ def run(ctx):
             cuts = sorted(set(range(1, len(S), 1460)) | {len(small[k % len(small)][0]) + 2})
             for bs in (64, 4096) if k % 2 else (4096,):
                 yield ("sockreader", {"S": S.hex(), "cuts": cuts, "bufsize": bs, "end": ("close", "timeout", "reset")[k % 3]})
+        # status lines of NTRIP casters / HTTP servers in front of the data (text without frame-start bytes), every two-chunk split
+        for hdr in (b"ICY 200 OK\r\n", b"ICY 200 OK\r\n\r\n", b"HTTP/1.1 200 OK\r\nNtrip-Version: Ntrip/2.0\r\n\r\n", b"SOURCETABLE 200 OK\r\n", b"HTTP/1.0 200 OK\r\n"):
+            S = hdr + small[0][0] + small[1][0] + small[2][0]
+            for cut in [[]] + [[c] for c in range(1, len(S), 3)]:
+                yield ("sockreader", {"S": S.hex(), "cuts": cut, "bufsize": (4096, 7, 64)[cut[0] % 3 if cut else 0], "end": ("close", "timeout")[len(S) % 2]})
         for k in range(200 if not big else 2000):
             if k % 2:
                 S, _ = st.clean_stream(rng, bigpool if k % 8 == 1 else pool, rng.randrange(3, 40), noise_p=0.3)
